@@ -554,7 +554,39 @@ def _ser_cases(tier, rng):
         out.append("@ser msg ch,771,%s,N,%s,0,N" % (hx(32), ".".join(str(i & 0xffff) for i in range(k))))
     return [Case(l, "", "serialize") for l in out]
 
+PROPS["C15"] = dict(
+    families=[], corpus_entries=[], small_scope=[], thorough_mult=1,
+    spec={"@hello": "spec.@hello"}, compare_stripped_prefixes=["@hello new", "@hello shnew"],
+)
+def _hello_cases(tier, seed, rng):
+    """accessors on parsed TLS/DTLS ClientHello and ServerHello values and on constructed ones"""
+    import vlib
+    from vlib import Case
+    out = []
+    n = 600 if tier == "quick" else 6000
+    for c in vlib.model_gen("hsbody", seed, n):
+        e, a, hx = vlib.split_line(c.line)
+        if e == "parse_tls_handshake_client_hello":
+            out.append("@hello tls " + hx)
+            b = bytearray.fromhex(hx)
+            for w in (0, 1, 0x7fffffff, 0x80000000, 0xffffffff, 0x4e5a99ea):   # leading random words
+                b[2:6] = w.to_bytes(4, "big"); out.append("@hello tls " + bytes(b).hex())
+        if e == "parse_tls_handshake_server_hello": out.append("@hello sh " + hx)
+    for c in vlib.model_gen("dtls", seed, n):
+        e, a, hx = vlib.split_line(c.line)
+        if e == "parse_dtls_message_handshake": out.append("@hello dtls " + hx)
+    def hxs(k): return bytes(rng.randrange(256) for _ in range(k)).hex() or "-"
+    listed = [0x002f, 0x0035, 0xc02f, 0x1301, 0x00ff, 0x0000]
+    for _ in range(600 if tier == "quick" else 8000):
+        rl = rng.choice([0, 1, 2, 3, 4, 5, 8, 28, 31, 32, 33, 40])
+        ciphers = ".".join(str(rng.choice(listed + [rng.randrange(65536)])) for _ in range(rng.randrange(0, 6))) or "-"
+        comps = ".".join(str(rng.randrange(256)) for _ in range(rng.randrange(0, 3))) or "-"
+        out.append("@hello new %d %s %s %s %s %s" % (rng.randrange(65536), hxs(rl), rng.choice(["N", hxs(rng.randrange(0, 33))]), ciphers, comps, rng.choice(["N", hxs(rng.randrange(0, 8))])))
+        out.append("@hello shnew %d %s %s %d %d %s" % (rng.randrange(65536), hxs(rl), rng.choice(["N", hxs(4)]), rng.choice(listed + [rng.randrange(65536)]), rng.randrange(256), rng.choice(["N", hxs(3)])))
+    return [Case(l, "", "hello") for l in out]
+
 def extra_cases(pid, tier, seed, rng):
+    if pid == "C15": return _hello_cases(tier, seed, rng)
     if pid == "C09": return _ser_cases(tier, rng)
     if pid == "C05": return _ext_type_sweep(tier, rng)
     if pid == "C13": return _kx_sweeps(tier, rng)
